@@ -43,12 +43,14 @@ func main() {
 	budgetFlag := flag.Duration("budget", 0, "time budget")
 	cpuprofile := flag.String("cpuprofile", "", "write a CPU profile (child mode)")
 	flag.Parse()
+	if *replay != "" {
+		os.Exit(doReplay(*prop, *replay))
+	}
 	if *cpuprofile != "" {
 		f, _ := os.Create(*cpuprofile)
 		pprof.StartCPUProfile(f)
 		defer pprof.StopCPUProfile()
 	}
-	_ = replay
 	thorough := *tier == "thorough"
 	start := time.Now()
 	scs := scenariosFor(*prop, thorough)
@@ -276,4 +278,71 @@ func fingerprintOf(msg string) string {
 	}
 	sort.Strings(parts)
 	return strings.ReplaceAll(strings.Join(parts, ","), " ", "_")
+}
+
+// doReplay re-executes the recorded schedule of a violation file five times (no search) and
+// reports whether it still fails; the observations of the five runs must be identical.
+func doReplay(prop, path string) int {
+	b, err := os.ReadFile(path)
+	if err != nil {
+		fmt.Fprintln(os.Stderr, err)
+		return 2
+	}
+	var v struct {
+		Prop    string `json:"property"`
+		History struct {
+			Scenario string `json:"scenario"`
+			Schedule []int  `json:"schedule"`
+		} `json:"history"`
+	}
+	if err := json.Unmarshal(b, &v); err != nil {
+		fmt.Fprintln(os.Stderr, err)
+		return 2
+	}
+	if v.Prop != "" {
+		prop = v.Prop
+	}
+	var sc *scenario
+	for _, thorough := range []bool{false, true} {
+		for _, c := range scenariosFor(prop, thorough) {
+			if c.name == v.History.Scenario {
+				sc = c
+			}
+		}
+	}
+	if sc == nil {
+		fmt.Fprintln(os.Stderr, "scenario not found:", v.History.Scenario)
+		return 2
+	}
+	runtime.GOMAXPROCS(1)
+	failed := 0
+	first := ""
+	for i := 0; i < 5; i++ {
+		var check func() []string
+		labels = map[string]int{}
+		s := vsched.Run(func() { check = sc.body() }, vsched.Options{Prefix: v.History.Schedule, MaxSteps: sc.steps, Trace: true})
+		var problems []string
+		if s.Failure != "" {
+			problems = []string{s.FailKind + ": " + s.Failure}
+		} else if check != nil {
+			problems = check()
+		}
+		obs := fmt.Sprintf("%v | %v", problems, s.Trace)
+		if i == 0 {
+			first = obs
+			fmt.Printf("scenario %s, schedule %v\ntrace: %s\nproblems: %v\n", sc.name, v.History.Schedule, strings.Join(s.Trace, " "), problems)
+		} else if obs != first {
+			fmt.Println("HARNESS ERROR: replay is not deterministic")
+			return 2
+		}
+		if len(problems) > 0 {
+			failed++
+		}
+	}
+	fmt.Printf("replay failed %d/5 times\n", failed)
+	if failed > 0 {
+		fmt.Printf("VIOLATION property=%s replay=%s\n", prop, path)
+		return 1
+	}
+	return 0
 }
